@@ -109,12 +109,18 @@ struct Scheduled {
 }
 
 fn run_scheduled(case: &SchedCase, samples: &[i32], seed: u64, partial: ExecResult) -> Scheduled {
-    if case.strategy == 9 {
+    if (9..=12).contains(&case.strategy) {
         // real OS threads, no scheduler: whatever interleaving the machine produces (the parent's watchdog
         // turns a hang into "inconclusive"); complements the owned schedules for code paths that do not
         // pass a hook point (e.g. a non-blocking queue operation)
         ALL_PANICS.lock().unwrap().clear();
+        if case.strategy >= 10 {
+            // strategies 10/11/12: slow down the hashing thread / the feeder / the workers at their hook points
+            let j = sched::Jitter::new(case.strategy - 10, 30 + seed % 1500);
+            sched::install_jitter(&j);
+        }
         let out = run_encode(case, samples, true);
+        sched::uninstall();
         let me = format!("{:?}", std::thread::current().id());
         let helper_panics: Vec<String> = ALL_PANICS.lock().unwrap().iter().filter(|p| p.thread != me).map(|p| format!("{} at {}", p.msg.chars().take(100).collect::<String>(), p.loc)).collect();
         let nframes = enc::frames_of(case.inp.len, case.cfg.block_size, case.packet);
@@ -186,7 +192,7 @@ pub fn exec_case(case: &SchedCase) -> ExecResult {
         Some(x) if x.parse::<usize>().map_or(false, |v| v > 0 && v < 100) => "number",
         Some(_) => "unparsable",
     }));
-    r.classes.push(format!("strategy:{}", ["uniform", "pct", "starve-hasher", "starve-feeder", "starve-workers", "real-threads"][if case.strategy == 9 { 5 } else { (case.strategy as usize).min(4) }]));
+    r.classes.push(format!("strategy:{}", match case.strategy { 9 => "real-threads", 10 => "real-threads:slow-hasher", 11 => "real-threads:slow-feeder", 12 => "real-threads:slow-workers", s => ["uniform", "pct", "starve-hasher", "starve-feeder", "starve-workers"][(s as usize).min(4)] }));
     // reference: single-thread mode, same (possibly faulty) source; no hook installed
     let reference = run_encode(case, &samples, false);
     if reference.kind == "config-rejected" {
@@ -276,7 +282,7 @@ pub fn exec_case(case: &SchedCase) -> ExecResult {
     }
     // non-triviality
     r.nontrivial = match case.purpose.as_str() {
-        "c05" => s1.ooo > 0 || s1.worker_pop_while_feeder_blocked || (case.strategy == 9 && nframes > 16),
+        "c05" => s1.ooo > 0 || s1.worker_pop_while_feeder_blocked || (case.strategy >= 9 && nframes > 16),
         "c06" => {
             let w = case.cfg.workers.unwrap_or(16);
             (!case.faults.is_empty() && w >= 2 && case.faults.iter().any(|f| match f {
@@ -480,7 +486,7 @@ pub fn real_threads_strategy(purpose: &'static str) -> BoxedStrategy<SchedCase> 
             cfg.multithread = true;
             cfg.workers = Some(workers);
             inp.len = inp.len * 2;
-            SchedCase { purpose: purpose.into(), cfg, inp, src, fill_empty_at_end: fe, faults: vec![], env: None, strategy: 9, pct_depth: 0, choices: vec![], sched_seed: s, sched_seed2: s ^ 1, packet: 0 }
+            SchedCase { purpose: purpose.into(), cfg, inp, src, fill_empty_at_end: fe, faults: vec![], env: None, strategy: [9u8, 10, 10, 11, 12][(s % 5) as usize], pct_depth: 0, choices: vec![], sched_seed: s, sched_seed2: s ^ 1, packet: 0 }
         })
         .boxed()
 }
@@ -539,7 +545,7 @@ pub fn c03_strategy() -> BoxedStrategy<SchedCase> {
 pub fn run_c05(ctx: &Ctx) {
     ctx.rule(
         "cases = (config with multithread, >= 3-frame input, workers in {1..8, None}, FLACENC_WORKERS in {unset, 1..8, '0', '', 'abc', '-1', ' 2', 2^70, '00'}, schedule = (strategy uniform | PCT | starve-the-hashing-thread | starve-the-feeder | starve-the-workers, choice bytes, seed); a fifth of the cases read from a packet source (short reads in mid-stream); a quarter of the cases have 17..=45 frames (more than the hashing queue and the frame buffers hold)); \
-         every case runs in an executor process under the schedule-owning scheduler (a further family uses real OS threads with 34..90 small blocks and 8..32 workers, for code paths that pass no hook point); oracle: bytes(multi under schedule) == bytes(single) == bytes(frame-by-frame assembly) == bytes(multi under a second schedule), no dead-lock, no panic, no thread alive at return; \
+         every case runs in an executor process under the schedule-owning scheduler (a further family uses real OS threads with 34..90 small blocks and 8..32 workers, optionally with the hashing thread / the feeder / the workers slowed down at their hook points, for code paths that pass no hook point); oracle: bytes(multi under schedule) == bytes(single) == bytes(frame-by-frame assembly) == bytes(multi under a second schedule), no dead-lock, no panic, no thread alive at return; \
          non-trivial = result pushes out of frame order, or a worker popped a buffer while the feeder was blocked on the refill queue, or a real-thread run with more than 16 blocks",
     );
     ctx.assume("only hook points are scheduling points: par.rs shares state only through the channels, mutexes and Arcs the hook sees; interleavings inside crossbeam/std and weak-memory effects are not explored");
@@ -605,6 +611,21 @@ pub fn run_c06(ctx: &Ctx) {
     ctx.set_extra("fault_grid", serde_json::json!({"frames": format!("1..={max_frames}"), "positions": "every k in 0..=frames", "kinds": ["read error", "out-of-range sample"], "workers": format!("1..={max_workers}"), "schedules_per_point": scheds, "points": n}));
     let per = ctx.tier.scale(300, 12);
     ctx.search("sched-faults", 12, per, &c06_strategy, check);
+    // real OS threads with faults (no owned schedule; a hang here is inconclusive, the exact verdict comes from the scheduler)
+    ctx.search("real-threads-faults", 6, per / 3, &|| {
+        (real_threads_strategy("c06"), any::<u64>()).prop_map(|(mut c, s)| {
+            let nf = enc::frames_of(c.inp.len, c.cfg.block_size, 0).max(1);
+            let k = (s % nf as u64) as usize;
+            c.faults = match s % 4 {
+                0 => vec![],
+                1 => vec![Fault::ReadErr(k)],
+                2 => vec![Fault::Range(k, (s >> 8) as usize % 4000)],
+                _ => vec![Fault::Range(k, 3), Fault::ReadErr((k + 1 + (s >> 16) as usize % 5).min(nf))],
+            };
+            c.cfg.workers = Some(1 + (s >> 24) as usize % 6);
+            c
+        })
+    }, check);
     if ctx.tier == Tier::Thorough {
         real_thread_layer(ctx, "c06");
     }
